@@ -268,4 +268,73 @@ theorem intoModel_feasible_inDomain {K : Type} [Field K] [LinearOrder K] [IsStri
   have := hf.2 { name := p.1, ty := p.2, usage := 1 } (by rw [hd]; exact List.mem_map.2 ⟨p, hp, rfl⟩)
   simpa using this
 
+/-! ### Non-vacuity: a concrete builder model at `K = ℚ`
+
+`x ∈ {0..5}` (index 0), `y` Boolean (index 1), `z` Boolean declared but never used (index 2);
+constraint `x + 2*y <= 6`; objective `max x + 2*y`. -/
+section examples
+attribute [local instance 2000] fieldExact
+
+private theorem i0 : idx "0" = some 0 := idx_repr 0
+private theorem i1 : idx "1" = some 1 := idx_repr 1
+
+private def v0 : Exp (Ext ℚ) := .var "0"
+private def v1 : Exp (Ext ℚ) := .var "1"
+private def lin : Exp (Ext ℚ) := .bin .add v0 (.bin .mul (.num (.fin 2)) v1)
+private def lin' : Exp (Ext ℚ) := .bin .add (.var "x") (.bin .mul (.num (.fin 2)) (.var "y"))
+
+def exB : BModel (Ext ℚ) :=
+  { vars := [("x", .int 0 5), ("y", .bool), ("z", .bool)],
+    constraints := [{ name := "c", lhs := lin, cmp := .le, rhs := .num (.fin 6), isAssert := false }],
+    objective := some (.max, lin) }
+
+def exM : Model (Ext ℚ) :=
+  { optType := .max, objective := lin',
+    constraints := [{ name := "c", lhs := lin', cmp := .le, rhs := .num (.fin 6), isAssert := false }],
+    domain := [{ name := "x", ty := .int 0 5, usage := 1 }, { name := "y", ty := .bool, usage := 1 },
+               { name := "z", ty := .bool, usage := 1 }] }
+
+example : toExp ["x", "y", "z"] lin = some lin' := by
+  simp [toExp, lin, lin', v0, v1, i0, i1]
+
+example : inRange ["x", "y", "z"] lin = true := by
+  simp [inRange, leafOk, vars, lin, v0, v1, i0, i1]
+
+/-- an index out of range: `toExp` fails (the Rust would panic on the slice index). -/
+example : toExp ["x"] lin = none := by
+  simp [toExp, lin, v0, v1, i0, i1]
+
+theorem exB_intoModel : intoModel exB = some exM := by
+  simp [intoModel, exB, exM, toExp, lin, lin', v0, v1, i0, i1]
+
+/-- `evalExpr_eq_eval_vals` applies: at `x = 3, y = 1` the builder's evaluator gives `5`, the value
+of the translated expression under the language semantics. -/
+example : evalExpr (fun i => .fin (([3, 1, 0] : List ℚ).getD i 0)) lin = .fin 5 :=
+  evalExpr_eq_eval_vals (K := ℚ) ["x", "y", "z"] [3, 1, 0] (by decide) (by decide)
+    (e' := lin') (by simp [toExp, lin, lin', v0, v1, i0, i1])
+    (by rw [fieldExact_rat]; decide +kernel)
+
+/-- the theorems about `intoModel` apply to `exB`: all three declared variables are marked … -/
+example : exM.domain.map (·.name) = ["x", "y", "z"] ∧ ∀ d ∈ exM.domain, d.usage = 1 :=
+  ⟨(intoModel_marks_all exB_intoModel).2.1, (intoModel_marks_all exB_intoModel).2.2.1⟩
+
+/-- … the result is closed, so the C03 reference theorems apply to it … -/
+example : Ref.Closed exM = true := intoModel_closed_model exB_intoModel
+
+/-- … the reference solves it (`x = 4` or `5` with `y = 1`, capped at `x + 2y = 6`; first best wins) … -/
+example : Ref.refSolve exM = .optimal 6 [("x", 4), ("y", 1), ("z", 0)] := by
+  rw [fieldExact_rat]; decide +kernel
+
+/-- … and the never-used `z` is forced into `{0,1}` at every feasible point. -/
+example (ρ : String → ℚ) (hf : Sem.srcFeasible exM ρ = true) : Sem.inDomain (ρ "z") .bool = true :=
+  intoModel_feasible_inDomain exB_intoModel hf ("z", .bool) (by simp [exB])
+
+/-- default objective. -/
+example : ∃ m, intoModel { exB with objective := none } = some m ∧ m.optType = .satisfy ∧
+    m.objective = .num (.fin 0) := by
+  refine ⟨{ exM with optType := .satisfy, objective := .num (.fin 0) }, ?_, rfl, rfl⟩
+  simp [intoModel, exB, exM, toExp, lin, lin', v0, v1, i0, i1]
+
+end examples
+
 end Rooc.Props.C16
